@@ -195,4 +195,85 @@ theorem codec_crash_pinned_counterexample :
     hasCrash (run cfgPinned [stream [cmdPing], [36, 45, 50, 13, 10]]) = true ∧
     replyCount (run cfgPinned [stream [cmdPing], [36, 45, 50, 13, 10]]) = 1 := by decide
 
+/-! ## 3. connections do not leak into each other through the shared buffer pool -/
+
+/-- full statement: whatever the earlier (or concurrent) connections of the server did — EOF in the
+    middle of a frame, replies that could not be written, a buffer overflow — and in whatever order
+    connections are accepted and finish, every connection starts from an empty read buffer and an
+    empty write buffer: its client receives exactly what it receives from a server that never had
+    another client (`pool.clears` = `buf.clear()` in `BufferPoolAsync::release`) -/
+def C04_fresh_connection_state (clears : Bool) : Prop :=
+  ∀ (cfg : Config) (poolSize : Nat) (specs : List ConnSpec) (evs : List Ev),
+    let srv := serve cfg (Pool.init poolSize clears) specs evs
+    srv.pool.AllEmpty ∧ ∀ o ∈ srv.outs, ∃ spec, specs[o.1]? = some spec ∧ o.2 = solo cfg spec
+
+theorem fresh_connection_state : C04_fresh_connection_state true := by
+  intro cfg n specs evs
+  have := serve_ok cfg specs evs ⟨Pool.init n true, [], []⟩
+    ⟨Pool.init_allEmpty n true, rfl, by intro o ho; cases ho⟩
+  exact ⟨this.1, this.2.2⟩
+
+/-- a connection over the shared pool is answered as the same connection alone on the server -/
+theorem connections_independent (cfg : Config) (poolSize : Nat) (specs : List ConnSpec) (evs : List Ev)
+    (i : Nat) (out : List Action') (h : (i, out) ∈ (serve cfg (Pool.init poolSize true) specs evs).outs) :
+    ∃ spec, specs[i]? = some spec ∧
+      (serve cfg (Pool.init poolSize true) [spec] [Ev.start 0]).outs = [(0, out)] := by
+  obtain ⟨spec, hs, ho⟩ := (fresh_connection_state cfg poolSize specs evs).2 (i, out) h
+  refine ⟨spec, hs, ?_⟩
+  have h1 := Pool.acquire_empty (Pool.init poolSize true) (Pool.init_allEmpty _ _)
+  have h2 := Pool.acquire_empty _ h1.2.1
+  simp only [serve, List.foldl_cons, List.foldl_nil, srvStep, List.getElem?_cons_zero, List.nil_append]
+  simp only at ho
+  rw [ho, solo, h1.1, h2.1]
+
+/-- composed with `segmentation_independent`: on a server with a shared buffer pool, whatever its
+    other connections did, a connection that sends a well-formed pipeline (in any segmentation, and
+    whose replies can be written) gets every command executed exactly once, in order -/
+theorem pooled_one_reply_per_command (cfg : Config) (h14 : cfg.headerLen = 14) (hc : cfg.codec = codec1)
+    (hd : 1 ≤ cfg.env.depth) (poolSize : Nat) (specs : List ConnSpec) (evs : List Ev)
+    (i : Nat) (out : List Action') (h : (i, out) ∈ (serve cfg (Pool.init poolSize true) specs evs).outs)
+    (cmds : List Cmd) (segs : List Bytes) (hspec : specs[i]? = some ⟨segs, none⟩)
+    (hseg : segs.flatten = stream cmds) (hs : Small (stream cmds)) (hmax : (stream cmds).length ≤ cfg.maxBuffer)
+    (hok : ∀ c ∈ cmds, CmdOK cfg.env c) :
+    out = (execAll cmds).map Action'.act := by
+  obtain ⟨spec, hs1, ho⟩ := (fresh_connection_state cfg poolSize specs evs).2 (i, out) h
+  simp only at hs1 ho
+  rw [hspec] at hs1
+  cases hs1
+  rw [ho, solo, runConn_eq_run, segmentation_independent cfg h14 hc hd cmds segs hseg hs hmax hok]
+
+/-- `*2\r\n$3\r\nGET\r\n$5\r\nab` — a client that disconnects in the middle of a frame -/
+def midFrame : Bytes := [42, 50, 13, 10, 36, 51, 13, 10, 71, 69, 84, 13, 10, 36, 53, 13, 10, 97, 98]
+
+/-- non-vacuity: after that client, a pipeline `PING`, `GET k` on the same one-buffer pool -/
+example : ((serve cfg14 (Pool.init 1 true) [⟨[midFrame], none⟩, ⟨[stream [cmdPing, cmdGetK]], none⟩] (seqEvents 2)).outs.map
+    (fun o => o.2.length)) = [0, 2] := by decide
+
+/-- WITHOUT the `buf.clear()` in `release` the statement fails: the stale half frame is parsed in
+    front of the next client's pipeline (its PING is swallowed as the rest of a bulk string) -/
+theorem release_without_clear_counterexample : ¬ C04_fresh_connection_state false := by
+  intro h
+  have := (h cfg14 1 [⟨[midFrame], none⟩] (seqEvents 1)).1
+  have hne : ((serve cfg14 (Pool.init 1 false) [⟨[midFrame], none⟩] (seqEvents 1)).pool.q.all Buf.isEmpty) = false := by
+    decide
+  have hall : ((serve cfg14 (Pool.init 1 false) [⟨[midFrame], none⟩] (seqEvents 1)).pool.q.all Buf.isEmpty) = true := by
+    rw [List.all_eq_true]
+    intro b hb
+    rw [this b hb]
+    rfl
+  rw [hall] at hne
+  exact absurd hne (by decide)
+
+def anyProtoErr : List Action' → Bool
+  | [] => false
+  | .act .protoErr :: _ => true
+  | _ :: rest => anyProtoErr rest
+
+/-- … and the next client is answered wrongly: `PING`, `GET k` are answered with the reply to
+    `GET "ab*1\r"` and a protocol error -/
+example : ((serve cfg14 (Pool.init 1 false) [⟨[midFrame], none⟩, ⟨[stream [cmdPing, cmdGetK]], none⟩] (seqEvents 2)).outs.map
+    (fun o => anyProtoErr o.2)) = [false, true] ∧
+  ((serve cfg14 (Pool.init 1 true) [⟨[midFrame], none⟩, ⟨[stream [cmdPing, cmdGetK]], none⟩] (seqEvents 2)).outs.map
+    (fun o => anyProtoErr o.2)) = [false, false] := by decide
+
 end RedisVerif.C04
